@@ -176,5 +176,7 @@ let check_line (l : string) : string =
   | "US" -> check_us t
   | "UW" -> let _ = next t in let _ = next t in expect t "=>"; expect t "OK";
     if next_bool t then "OK" else "ORACLE C16.walk_differs_from_lstat"
+  | "UR" -> let rel = next t in expect t "=>"; expect t "OK";
+    if next_bool t then "OK" else "ORACLE C16.stat_of_a_kept_fid_does_not_follow_the_file path=" ^ rel
   | "UM" -> check_um l t
   | x -> failwith ("mode ufstree: bad record " ^ x)
